@@ -84,7 +84,14 @@ fn scan_hash(items: &[(Vec<u8>, Vec<u8>)]) -> String {
 }
 
 pub fn gen_cfg_sorter(rng: &mut Rng) -> SortCfg {
-    let threshold = *rng.pick(&[64usize, 80, 100, 256, 600, 1000, 4096]) + rng.below(16) as usize * (rng.below(2) as usize);
+    // budgets: a few fixed small ones and a log-uniform spread (so that the doubling chain
+    // 16 * 2^k lands anywhere relative to the budget)
+    let threshold = if rng.chance(1, 2) {
+        *rng.pick(&[64usize, 80, 100, 256, 600, 1000, 4096]) + rng.below(16) as usize * (rng.below(2) as usize)
+    } else {
+        let bits = rng.range(6, 12);
+        (1usize << bits) + rng.below(1u64 << bits) as usize
+    };
     let realloc = rng.chance(2, 3);
     let init_cap = if realloc {
         match rng.below(5) { 0 => 16, 1 => 17, 2 => threshold / 2, 3 => threshold, _ => rng.range(16, threshold as u64 + 15) as usize }
@@ -111,6 +118,7 @@ pub fn generate<W: Write>(c: &mut Cases<W>, rng: &mut Rng, thorough: bool, which
         let cfg = gen_cfg_sorter(rng);
         let small_only = which == "C08" || i % 3 != 0;
         let nins = match rng.below(8) { 0 => rng.below(4) as usize, 1..=4 => rng.range(4, 60) as usize, _ => rng.range(60, 400) as usize };
+        let nins = if cfg.threshold > 1500 { nins.min(90) } else { nins };
         let pool: Vec<Vec<u8>> = (0..rng.range(1, 25)).map(|_| gen_key(rng, 8)).collect();
         let quarter = cfg.threshold / 4;
         let mut ins: Vec<(Vec<u8>, Vec<u8>)> = Vec::new();
@@ -120,11 +128,17 @@ pub fn generate<W: Write>(c: &mut Cases<W>, rng: &mut Rng, thorough: bool, which
             if small_only && k.len() > quarter {
                 k.truncate(quarter);
             }
-            let vlen = match rng.below(6) { 0 => 0, 1 => vmax, _ => rng.below(vmax as u64 + 1) as usize };
+            let vlen = match rng.below(6) { 0 => 0, 1 | 2 => vmax, _ => rng.below(vmax as u64 + 1) as usize };
             // unstable algorithm: values with ascending bytes so that the sorting merge keeps a lone value
             let b0 = rng.next() as u8 & 0x3f;
             let v: Vec<u8> = if cfg.stable { (0..vlen).map(|j| b0.wrapping_add((j as u8).wrapping_mul(7))).collect() } else { vec![b0; vlen] };
             ins.push((k, v));
+        }
+        // the empty entry ("", ""): it occupies a bound slot but no data bytes
+        match rng.below(14) {
+            0 => { ins.clear(); for _ in 0..rng.range(1, 3) { ins.push((vec![], vec![])); } }
+            1 | 2 => { for _ in 0..rng.range(1, 3) { ins.push((vec![], vec![])); } }
+            _ => {}
         }
         let all_small = ins.iter().all(|(k, v)| k.len() + v.len() <= quarter);
         c.begin("sorter");
